@@ -228,6 +228,8 @@ pub enum Act {
     KeepAlive(u64),
     /// the client hangs up
     Eof,
+    /// the client's connection is reset: the next read fails with ConnectionReset
+    Reset,
     /// the client does nothing for this many milliseconds of REAL time (the thread sleeps; virtual time
     /// stands still). For the places where the code under test reads the wall clock (cookie timestamps).
     RealSleep(u64),
@@ -280,6 +282,10 @@ pub enum WStep {
     Sleep(Ms),
     /// `Pending` until absolute virtual time
     Until(Ms),
+    /// from now on every write is answered `Ok(0)` (the peer takes nothing any more)
+    Zero,
+    /// from now on every write fails with `BrokenPipe`
+    Fail,
 }
 
 #[derive(Clone, Debug)]
@@ -408,6 +414,8 @@ pub struct Obs {
     pub result: RunResult,
     pub end_ms: Ms,
     pub eof_at: Option<Ms>,
+    /// when the transport first refused a write (WStep::Zero / WStep::Fail)
+    pub write_fault_at: Option<Ms>,
     pub max_alloc: usize,
     /// bytes the client emitted / the server consumed
     pub emitted: usize,
@@ -537,6 +545,8 @@ struct Shared {
     scheduled: Vec<(Ms, u64, Sched)>,
     seq: u64,
     hung_up: bool,
+    reset: bool,
+    write_fault_at: Option<Ms>,
     eof_at: Option<Ms>,
     reads: usize,
     steps_done: usize,
@@ -551,6 +561,8 @@ struct Shared {
 enum ReadAnswer {
     Deliver(Vec<u8>),
     Eof,
+    /// the connection was reset by the peer: the read fails
+    Reset,
     Yield,
     SleepUntil(Ms),
     Stall,
@@ -638,6 +650,10 @@ impl Shared {
             Act::Raw(b) => self.emit_bytes(b, g),
             Act::KeepAlive(id) => self.emit_bytes(&codec::sb_keep_alive(*id), g),
             Act::Eof => self.hung_up = true,
+            Act::Reset => {
+                self.hung_up = true;
+                self.reset = true;
+            }
         }
     }
 
@@ -863,7 +879,7 @@ impl Shared {
                 if self.eof_at.is_none() {
                     self.eof_at = Some(now);
                 }
-                return ReadAnswer::Eof;
+                return if self.reset { ReadAnswer::Reset } else { ReadAnswer::Eof };
             }
             if self.client_on_idle(now) {
                 continue;
@@ -927,6 +943,13 @@ impl AsyncRead for VStream {
                     buf.put_slice(&b);
                     return Poll::Ready(Ok(()));
                 }
+                ReadAnswer::Reset => {
+                    this.reads_after_eof += 1;
+                    if this.reads_after_eof > 10_000 {
+                        panic!("{SPIN_MARK}: read polled {} times after the connection was reset", this.reads_after_eof);
+                    }
+                    return Poll::Ready(Err(std::io::Error::from(std::io::ErrorKind::ConnectionReset)));
+                }
                 ReadAnswer::Eof => {
                     // a handler that keeps polling after end of stream would spin forever inside one task
                     // poll (virtual time cannot advance): end the run loudly instead of hanging the check
@@ -980,6 +1003,19 @@ impl AsyncWrite for VStream {
             if let Some(step) = step {
                 sh.prog_pos += 1;
                 match step {
+                    WStep::Zero | WStep::Fail => {
+                        // sticky: the same answer to every later write
+                        sh.prog_pos -= 1;
+                        if sh.write_fault_at.is_none() {
+                            sh.write_fault_at = Some(now);
+                        }
+                        drop(sh);
+                        this.reads_after_eof += 1;
+                        if this.reads_after_eof > 10_000 {
+                            panic!("{SPIN_MARK}: write polled {} times after the transport stopped taking bytes", this.reads_after_eof);
+                        }
+                        return if matches!(step, WStep::Zero) { Poll::Ready(Ok(0)) } else { Poll::Ready(Err(std::io::Error::from(std::io::ErrorKind::BrokenPipe))) };
+                    }
                     WStep::Accept(k) => n = n.min(k.max(1)),
                     WStep::Yield => {
                         cx.waker().wake_by_ref();
@@ -1269,6 +1305,8 @@ fn new_shared(case: &Case) -> Arc<Mutex<Shared>> {
         scheduled: vec![],
         seq: 0,
         hung_up: false,
+        reset: false,
+        write_fault_at: None,
         eof_at: None,
         reads: 0,
         steps_done: 0,
@@ -1367,6 +1405,7 @@ pub fn run_many(cases: &[Case]) -> Vec<Obs> {
                 result,
                 end_ms,
                 eof_at: sh.eof_at,
+                write_fault_at: sh.write_fault_at,
                 max_alloc,
                 emitted: sh.emitted,
                 consumed: sh.consumed,
